@@ -158,7 +158,7 @@ def step (st : St) (line : String) : St × String :=
           if nb.length != st.np then (st.sp, "0:no-answer") else
           let r := specStep st.sp op out nb
           (r.1, match r.2 with | none => "1" | some k => "0:" ++ k)
-        | _, _ => (st.sp, "0:no-answer")
+        | _, _ => (st.sp, if impl.startsWith "HANG" then "0:hang" else if impl.startsWith "PANIC" || impl.startsWith "panic" then "0:panic" else "0:no-answer")
       let nt := boolStr (pick.1.parts.any (fun pd => pd.hwm > 0))
       ({ st with m := pick.1, sp := sp' }, s!"{pick.2} | {verdict} | {nt}")
 
